@@ -2,6 +2,20 @@
 """writes MANIFEST.json from the table below (kept in one place so that it stays valid)"""
 import json
 CHECKS = {
+ "C15": dict(
+   text="Partial proof. The convergence of the iterations is numerical analysis and is not proved. Proved on a Lean model of the decision "
+        "logic of nonlinear_roots over what its back ends report (MINPACK for numpy dtypes up to 64 bits, the built-in dogleg hybrj "
+        "otherwise, then the newtontrustregion fall-back) and of its consumer in RungeKuttaIntegrator.step: success reached through a "
+        "residual disjunct implies residual <= tol_epsilon on both paths; on the double-precision path the handed-back precision is the "
+        "residual norm of the returned point, so an accepted implicit stage solve has residual below the requested tolerance whatever the "
+        "back ends did; the consumer accepts iff success and prec < tol. Tied to the code by recording what the back ends returned (wrappers "
+        "around the module's own functions) for a bank of systems (n = 1..12, shapes, with/without Jacobian, good/bad starts, singular "
+        "Jacobians, systems without a root) and feeding it to the model. Known finding P21 (hybrj path claims success without a residual "
+        "test), with a model-level counterexample in Findings/C15.",
+   note="Trusted: Lean kernel, standard axioms, harness. MINPACK's own success flag and the numerical iterations are inputs of the model; "
+        "every claimed success is checked against ||F(x)|| <= 100 tol sqrt(n) on the implementation.",
+   technique="Lean 4 proof on a decision-logic model + recorded back-end outcomes + residual oracle on a bank of systems",
+   design="5 (C15)"),
  "C16": dict(
    text="Partial proof. Proved on a Lean model of the private state machine of DiffRHS.jac: after EVERY sequence of jac(t, y) requests at "
         "varying times, hooks, attribute assignments, unhooks and set_jac_base_order calls, the next request is answered by the user's "
